@@ -35,11 +35,11 @@ type c15Msg struct {
 	Internal time.Time // as appended (with its zone)
 
 	// the calendar day of INTERNALDATE as the server reports it
-	IntY int
-	IntM time.Month
-	IntD int
-	Flags    []string  // as appended
-	Literal  []byte
+	IntY    int
+	IntM    time.Month
+	IntD    int
+	Flags   []string // as appended
+	Literal []byte
 
 	// learned from the session's view
 	Seq    int
